@@ -24,8 +24,8 @@ def main():
         # 2. warm the Go build cache (plain and race builds of the harness)
         ctx = vf.Ctx("setup", "quick", 1)
         try:
-            for d in sorted(os.listdir(os.path.join(vf.HARNESS, "cmd"))):
-                ctx.harness(cmd=d)
+            for name in sorted(os.listdir(os.path.join(vf.HARNESS, "cmd"))):
+                ctx.harness(cmd=name)
             ctx.harness(race=True)
         finally:
             ctx.cleanup()
